@@ -464,7 +464,17 @@ func runC10Size(c c10Case) *Violation {
 	}
 	b, _ := io.ReadAll(resp.Body)
 	resp.Body.Close()
-	return check("http", b, resp.StatusCode)
+	if v := check("http", b, resp.StatusCode); v != nil {
+		return v
+	}
+	// the same body without a declared length (Transfer-Encoding: chunked): the limit is on what arrives, not on what is announced
+	resp, err = http.Post(srv.URL, "application/json", struct{ io.Reader }{strings.NewReader(body)})
+	if err != nil {
+		return nil
+	}
+	b, _ = io.ReadAll(resp.Body)
+	resp.Body.Close()
+	return check("http-chunked", b, resp.StatusCode)
 }
 
 func c10NT(c c10Case) (bool, []string) {
